@@ -16,14 +16,19 @@ fn new_palette(first: u32) {
         buf[4 + i] = (first >> (8 * i)) as u8;
         buf[8 + i] = (last >> (8 * i)) as u8;
     }
-    buf[20] &= 0xfe; // entry 0: no name (other flag bits symbolic)
-    buf[26] |= 1; // entry 1: has name
+    // the name flag decides how many bytes an entry takes, so the flag words are concrete (R10): entry 0 carries
+    // every other flag bit and no name, entry 1 only the name bit
+    buf[20] = 0xfe;
+    buf[21] = 0xff;
+    buf[26] = 1;
+    buf[27] = 0;
     buf[32] = 1;
     buf[33] = 0;
     kani::assume(buf[34] < 0x80);
     let p = match parse_chunk(&buf) {
         Ok(p) => p,
-        Err(_) => {
+        Err(e) => {
+            core::mem::forget(e);
             assert!(false, "well-formed palette chunk decodes");
             return;
         }
@@ -125,7 +130,8 @@ fn legacy(kind11: bool, s0: u8, s1: u8) {
     }
     let p = match r {
         Ok(p) => p,
-        Err(_) => {
+        Err(e) => {
+            core::mem::forget(e);
             assert!(kind11 && !all6, "only an out-of-range 6-bit component can fail");
             return;
         }
@@ -166,8 +172,17 @@ fn c11_q_legacy_04_skip_0_3() {
 #[kani::stub(std::collections::HashMap::insert, crate::vklib::hm_insert)]
 #[kani::stub(crate::palette::ColorPalette::color, crate::vklib::side_color)]
 #[kani::stub(std::collections::HashMap::len, crate::vklib::hm_len)]
-fn c11_q_legacy_11_skip_1_2() {
+fn c11_t_legacy_11_skip_1_2() {
     legacy(true, 1, 2);
+}
+#[kani::proof]
+#[kani::unwind(11)]
+#[kani::stub(alloc::fmt::format, crate::vklib::empty_format)]
+#[kani::stub(std::collections::HashMap::insert, crate::vklib::hm_insert)]
+#[kani::stub(crate::palette::ColorPalette::color, crate::vklib::side_color)]
+#[kani::stub(std::collections::HashMap::len, crate::vklib::hm_len)]
+fn c11_q_legacy_04_skip_200_100() {
+    legacy(false, 200, 100);
 }
 #[kani::proof]
 #[kani::unwind(11)]
